@@ -625,9 +625,49 @@ func (x *Exec) schedule(t *thread) {
 	}
 }
 
+// RunningID returns the id of the thread that is executing.
+func (x *Exec) RunningID() int {
+	if x.running == nil {
+		return -1
+	}
+	return x.running.id
+}
+
+type lockOwner interface{ Owner() int }
+
 func (x *Exec) noteBlocked() {
+	// threads that wait for a lock held by a thread that itself waits for a lock ...: if the
+	// wait-for graph has a cycle, only its members are reported (bystanders blocked behind
+	// the cycle would make the finding key depend on the driver)
+	waitsFor := map[int]int{}
+	for _, u := range x.threads {
+		if u.done || u.pend == nil || u.pend.obj == nil {
+			continue
+		}
+		if lo, ok := u.pend.obj.(lockOwner); ok && lo.Owner() >= 0 {
+			waitsFor[u.id] = lo.Owner()
+		}
+	}
+	inCycle := map[int]bool{}
+	for start := range waitsFor {
+		seen := map[int]bool{}
+		for t, ok := start, true; ok && !seen[t]; t, ok = waitsFor[t], waitsFor[t] != 0 || hasKey(waitsFor, t) {
+			seen[t] = true
+			if nx, has := waitsFor[t]; has && nx == start {
+				for k := range seen {
+					inCycle[k] = true
+				}
+			}
+			if _, has := waitsFor[t]; !has {
+				break
+			}
+		}
+	}
 	for _, u := range x.threads {
 		if u.done || u.pend == nil {
+			continue
+		}
+		if len(inCycle) > 0 && !inCycle[u.id] {
 			continue
 		}
 		d := fmt.Sprintf("T%d %s", u.id, u.pend.describe())
@@ -637,6 +677,8 @@ func (x *Exec) noteBlocked() {
 		x.Blocked = append(x.Blocked, d)
 	}
 }
+
+func hasKey(m map[int]int, k int) bool { _, ok := m[k]; return ok }
 
 func (p *pending) describe() string {
 	if p.sel != nil {
